@@ -181,6 +181,8 @@ Proof.
     + (* ILock from free *) destruct (IH true e (p_temp P) H (fun _ => eq_refl)) as [I1 I2]. split; auto.
     + (* IUnlock from held *) destruct (IH false e (p_final P) H (fun E => match Bool.diff_false_true E with end)) as [I1 I2].
       split; auto. intro E. rewrite (I2 E). simpl. destruct (existsb lockish r); reflexivity.
+    + (* IUnlock from free *) destruct (IH false e (p_final P) H (fun E => match Bool.diff_false_true E with end)) as [I1 I2].
+      split; auto. intro E. rewrite (I2 E). simpl. destruct (existsb lockish r); reflexivity.
     + (* ICallLock from free *) destruct (IH false e (p_final P) H (fun E => match Bool.diff_false_true E with end)) as [I1 I2].
       split; auto. intro E. rewrite (I2 E). simpl. destruct (existsb lockish r); reflexivity.
     + (* IOther held *) destruct (IH true e v H Ha) as [I1 I2]. split; auto.
